@@ -46,3 +46,29 @@ Proof.
   split; [vm_compute; reflexivity|]. split; [vm_compute; discriminate|].
   intros y Hy. vm_compute in Hy. destruct Hy as [<-|[<-|[]]]; split; reflexivity.
 Qed.
+
+(* ---- the pipeline half: the three templates are no-ops on every tree (added once the pipeline model existed) ---- *)
+From Tempren Require Import FS.Model Pipe.Pipeline Pipe.Noop.
+
+(* a plan in which every file's generated path equals its own relative path: exit status 0, no system call,
+   no report line, no intermediate state, the tree unchanged — every mode, strategy, dry or real, any order *)
+Theorem C17_identity_plan_is_noop : forall c plan cwd s,
+  Forall (identity_entry (c_mode c) s) plan ->
+  let r := run c plan cwd s in
+  r_status r = 0%Z /\ r_calls r = [] /\ r_report r = [] /\ r_states r = [] /\ r_final r = s.
+Proof. exact identity_plan_is_noop. Qed.
+Print Assumptions C17_identity_plan_is_noop.
+
+(* '%Name()' and '%Base()%Ext()' (= name, by C17_stem_suffix) in name and directory mode *)
+Theorem C17_own_name_is_identity : forall m f s,
+  m <> MPath -> normal_rel (pf_rel f) -> (exists cwd1, chdir s (pf_dir f) = Some cwd1) ->
+  identity_entry m s (f, RText (pp_name (pf_rel f))).
+Proof. exact own_name_is_identity. Qed.
+Print Assumptions C17_own_name_is_identity.
+
+(* '%Dir()/%Name()' in path mode *)
+Theorem C17_dir_slash_name_is_identity : forall f s,
+  normal_rel (pf_rel f) -> (exists cwd1, chdir s (pf_dir f) = Some cwd1) ->
+  identity_entry MPath s (f, RText (tag_dir (pf_rel f) None ++ slash :: tag_name (pf_rel f) None)).
+Proof. exact dir_slash_name_is_identity. Qed.
+Print Assumptions C17_dir_slash_name_is_identity.
